@@ -391,13 +391,9 @@ Proof.
   split; [intros i u' Hi; by apply hins_new|]. done.
 Qed.
 
-(** ** 6. ANY file (well formed or not): either handles are returned and the
-    ledger gains exactly one reference per handle, or the call raises,
-    creates no handle and leaks no reference.  The decorated calls cannot
-    fail here ([v] comes from the "level_of_var" line, which [declare] has
-    just processed; the operands are held temporaries; the table is
-    unbounded); what can fail is a lookup ([KeyError]) or the assertion on
-    the sign of the new node. *)
+(** ** 6. ANY file (well formed or not), any node limit: see
+    [Proofs/JsonLoadDynAny.v] ([json_load_any_file_dynamic_any]); here only
+    two facts about the memo that it uses. *)
 Definition cnz (c : gmap positive Z) : Prop := ∀ k x, c !! k = Some x → x ≠ 0%Z.
 
 Lemma cnz_cvalid r L c : Inv r → Counts r (ledger_add L (cvals c)) → cnz c → cvalid r c.
@@ -409,322 +405,6 @@ Qed.
 Lemma cvals_insert_perm (c : gmap positive Z) k u : c !! k = None →
   cvals (<[k := u]> c) ≡ₚ u :: cvals c.
 Proof. intros Hk. unfold cvals. by rewrite (map_to_list_insert c k u Hk). Qed.
-
-(** a temporary around a body of which we know the outcome: [Q res] lists
-    what the body leaves held (besides [u]), [P] is any state-independent
-    fact about the result *)
-Lemma with_tmp_dyn {A} u (body : MA A) r H n L l (Q : res A → list Z) (P : res A → Prop) :
-  DynSt r → valid r u →
-  (∃ res r2, body (ASt (bump u r) H n) = (res, ASt r2 H n) ∧
-     DStep (heldn (ledger_add L (u :: l))) (bump u r) r2 ∧
-     Counts r2 (ledger_add L (u :: Q res)) ∧ P res) →
-  ∃ res r', with_tmp u body (ASt r H n) = (res, ASt r' H n) ∧
-     DStep (heldn (ledger_add L l)) r r' ∧ Counts r' (ledger_add L (Q res)) ∧ P res.
-Proof.
-  intros HD Hv (res&r2&Eb&HS&HC&HP).
-  pose proof (dy_inv r HD) as HI. pose proof HS as (HD2&_&_). pose proof (dy_inv r2 HD2) as HI2.
-  assert (Hv2 : valid r2 u).
-  { apply (DStep_valid _ (bump u r) r2 u HS); [apply heldn_add_in; lmem|done]. }
-  exists res, (unbump u r2). split; [by apply with_tmp_run|]. split.
-  { apply (DStep_trans _ r (bump u r)).
-    - apply DStep_grows; [done|by apply Inv_bump|apply grows_bump].
-    - apply (DStep_trans _ (bump u r) r2).
-      + apply (DStep_mono _ (heldn (ledger_add L (u :: l)))); [|done].
-        intros m. apply heldn_sub. intros y. lmem.
-      + apply DStep_grows; [done|by apply Inv_unbump|apply grows_unbump]. }
-  split; [by apply Counts_unbump_add|done].
-Qed.
-
-Definition mn_held (cache : gmap positive Z) (res : res (gmap positive Z)) : list Z :=
-  match res with Ok c' => cvals c' | Err _ => cvals cache end.
-Definition mn_post (cache : gmap positive Z) (k : positive) (res : res (gmap positive Z)) : Prop :=
-  match res with
-  | Ok c' => c' = cache ∨ ∃ u, cache !! k = None ∧ c' = <[k := u]> cache ∧ u ≠ 0%Z
-  | Err _ => True
-  end.
-
-Lemma make_node_any vat cache k lv lo hi r H n L :
-  DynSt r → Counts r (ledger_add L (cvals cache)) →
-  (∀ l v, vat l = Some v → is_Some (vars r !! v)) →
-  ∃ res r', make_node vat false cache (k, (lv, lo, hi)) (ASt r H n) = (res, ASt r' H n) ∧
-    DStep (heldn (ledger_add L (cvals cache))) r r' ∧
-    Counts r' (ledger_add L (mn_held cache res)) ∧ mn_post cache k res.
-Proof.
-  intros HD HC Hvat. pose proof (dy_inv r HD) as HI. unfold make_node. case_decide as Hk.
-  { exists (Ok cache), r. split; [done|]. split; [by apply DStep_refl|]. split; [done|by left]. }
-  assert (Hk' : cache !! k = None) by (by apply eq_None_not_Some).
-  (* low *)
-  destruct (nfi_pure cache (jref_id lo) (ASt r H n)) as ([low|e]&El&Hvl); cycle 1.
-  { rewrite (bind_err _ _ _ _ _ El). exists (Err e), r. split; [done|].
-    split; [by apply DStep_refl|]. by split. }
-  step El. specialize (Hvl low eq_refl HI). cbn [mgr] in Hvl.
-  apply (with_tmp_dyn low _ r H n L (cvals cache) (mn_held cache) (mn_post cache k) HD Hvl).
-  set (r1 := bump low r).
-  assert (HD1 : DynSt r1) by (by apply DynSt_bump).
-  pose proof (dy_inv r1 HD1) as HI1.
-  set (l1 := low :: cvals cache).
-  assert (HC1 : Counts r1 (ledger_add L l1)) by (by apply Counts_bump_add).
-  (* high *)
-  destruct (nfi_pure cache (jref_id hi) (ASt r1 H n)) as ([high|e]&Eh&Hvh); cycle 1.
-  { rewrite (bind_err _ _ _ _ _ Eh). exists (Err e), r1. split; [done|].
-    split; [by apply DStep_refl|]. by split. }
-  step Eh. specialize (Hvh high eq_refl HI1). cbn [mgr] in Hvh.
-  apply (with_tmp_dyn high _ r1 H n L l1 (fun res => low :: mn_held cache res)
-           (mn_post cache k) HD1 Hvh).
-  set (r2 := bump high r1).
-  assert (HD2 : DynSt r2) by (by apply DynSt_bump).
-  pose proof (dy_inv r2 HD2) as HI2.
-  set (l2 := high :: l1).
-  assert (HC2 : Counts r2 (ledger_add L l2)) by (by apply Counts_bump_add).
-  (* the variable of the level *)
-  destruct (vat lv) as [v|] eqn:Ev; cbn [of_opt]; cycle 1.
-  { exists (Err EKey), r2. split; [done|]. split; [by apply DStep_refl|]. by split. }
-  rewrite (bind_ok _ _ _ v (ASt r2 H n)) by done.
-  destruct (node_core r2 H n L l2 low high v HD2 HC2) as (u&r6&Eu&HS6&HC6&Hvu&_);
-    [unfold l2, l1; lmem|unfold l2; lmem|done|done|by apply (Hvat lv)|].
-  step Eu.
-  pose proof HS6 as (HD6&_&_). pose proof (dy_inv r6 HD6) as HI6.
-  (* the new node under its temporary *)
-  destruct (with_tmp_dyn u
-              (assert (bool_decide (0 < u)%Z) ;;; lift (incref u) ;;; ret (<[k := u]> cache))
-              r6 H n L l2 (fun res => high :: low :: mn_held cache res) (mn_post cache k) HD6 Hvu)
-    as (res&r'&E&HS'&HC'&HP).
-  { set (r7 := bump u r6).
-    assert (HD7 : DynSt r7) by (by apply DynSt_bump).
-    pose proof (dy_inv r7 HD7) as HI7.
-    assert (HC7 : Counts r7 (ledger_add L (u :: l2))) by (by apply Counts_bump_add).
-    destruct (bool_decide (0 < u)%Z); cbn [assert].
-    - rewrite (bind_ok _ _ _ tt (ASt r7 H n)) by done.
-      assert (Hvu7 : valid r7 u) by done.
-      step (lift_run _ _ H n _ _ (incref_ok r7 u HI7 Hvu7)).
-      exists (Ok (<[k := u]> cache)), (bump u r7). split; [done|]. split.
-      { apply DStep_grows; [done|by apply Inv_bump|apply grows_bump]. }
-      split.
-      + eapply Counts_ext; [|apply (Counts_bump_add r7 _ _ u Hvu7 HC7)].
-        intros m. cbn [mn_held]. apply ledger_add_perm. unfold l2, l1.
-        rewrite (cvals_insert_perm cache k u Hk').
-        apply Permutation_skip.
-        etrans; [apply Permutation_swap|]. apply Permutation_skip.
-        apply Permutation_swap.
-      + right. exists u. split; [done|]. split; [done|]. apply Hvu.
-    - exists (Err EAssert), r7. split; [done|]. split; [by apply DStep_refl|]. by split. }
-  exists res, r'. split; [done|]. split; [|by split].
-  by apply (DStep_trans _ r2 r6 r').
-Qed.
-
-Lemma make_nodes_any vat lines : ∀ cache r H n L,
-  DynSt r → cnz cache → Counts r (ledger_add L (cvals cache)) →
-  (∀ l v, vat l = Some v → is_Some (vars r !! v)) →
-  ∃ cache' failed r',
-    make_nodes vat false cache lines (ASt r H n) = (Ok (cache', failed), ASt r' H n) ∧
-    DStep (heldn L) r r' ∧ cnz cache' ∧ Counts r' (ledger_add L (cvals cache')).
-Proof.
-  induction lines as [|[k [[lv lo] hi]] lines IH]; intros cache r H n L HD Hnz HC Hvat.
-  { exists cache, None, r. split; [done|]. split; [by apply DStep_refl|]. by split. }
-  cbn [make_nodes].
-  destruct (make_node_any vat cache k lv lo hi r H n L HD HC Hvat) as (res&r1&E&HS&HC1&HP).
-  unfold bind at 1. unfold catch. rewrite E.
-  assert (HS1 : DStep (heldn L) r r1).
-  { apply (DStep_mono _ _ r r1 (fun m => heldn_add L (cvals cache) m) HS). }
-  destruct res as [c'|e].
-  - cbn [mn_held mn_post] in *.
-    assert (Hnz' : cnz c').
-    { destruct HP as [->|(u&Hk&->&Hu)]; [done|].
-      intros k' x. rewrite lookup_insert_Some. intros [[_ <-]|[_ Hx]]; [done|by eapply Hnz]. }
-    destruct (IH c' r1 H n L (proj1 HS) Hnz' HC1) as (c2&fl&r2&E2&HS2&Hnz2&HC2).
-    { intros l v Hv. apply (DStep_vars _ r r1 v HS1). by apply (Hvat l). }
-    exists c2, fl, r2. split; [exact E2|]. split; [by apply (DStep_trans _ r r1 r2)|]. by split.
-  - exists cache, (Some e), r1. split; [done|]. split; [done|]. by split.
-Qed.
-
-Theorem json_load_dyn_total jf r0 H n L :
-  DynSt r0 → Counts r0 L →
-  ∃ res r1 r' H' n',
-    declare (jf_levels jf).*1 r0 = (Ok tt, r1) ∧
-    a_load_json jf false (ASt r0 H n) = (res, ASt r' H' n') ∧
-    DynSt r1 ∧ frame r0 r1 ∧ vars r0 ⊆ vars r1 ∧ Counts r1 L ∧
-    (∀ v, is_Some (vars r1 !! v) ↔ is_Some (vars r0 !! v) ∨ v ∈ (jf_levels jf).*1) ∧
-    (∀ u, valid r0 u → valid r1 u ∧ ∀ ρ, denv r1 u ρ = denv r0 u ρ) ∧
-    DStep (heldn L) r1 r' ∧
-    match res with
-    | Err e => H' = H ∧ n' = n ∧ Counts r' L
-    | Ok hroots => ∃ us, H' = hins H n us ∧ n' = n + length us ∧
-                         Forall (valid r') us ∧ Counts r' (ledger_add L us)
-    end.
-Proof.
-  intros HD0 HC0. pose proof (dy_inv r0 HD0) as HI0.
-  destruct (declare (jf_levels jf).*1 r0) as [rd r1] eqn:Ed.
-  destruct (declare_run _ r0 rd r1 HI0 Ed) as (->&HI1&Hf1&HC1&Hd1&Hsub1&Hin1&_).
-  assert (HD1 : DynSt r1) by (by apply (DynSt_frame r0)).
-  set (vat := fun l => match list_find (fun vl : nat * nat => bool_decide (vl.2 = l))
-                               (reverse (jf_levels jf)) with
-                       | Some (_, (v, _)) => Some v | None => None end).
-  assert (Hvat : ∀ l v, vat l = Some v → is_Some (vars r1 !! v)).
-  { intros l v. unfold vat.
-    destruct (list_find _ _) as [[i [v' l']]|] eqn:Ef; [|done]. intros [= ->].
-    apply list_find_Some in Ef as (Hi&_&_). apply Hin1.
-    apply elem_of_list_fmap. exists (v, l'). split; [done|].
-    apply elem_of_reverse. by apply elem_of_list_lookup_2 in Hi. }
-  destruct (make_nodes_any vat (jf_nodes jf) ∅ r1 H n L HD1)
-    as (cache&failed&r2&E2&HS2&Hnz2&HC2); [| |done|].
-  { intros k x Hx. by rewrite lookup_empty in Hx. }
-  { unfold cvals. rewrite map_to_list_empty. by apply Counts_add_nil, HC1. }
-  pose proof HS2 as (HD2&_&_). pose proof (dy_inv r2 HD2) as HI2.
-  pose proof (cnz_cvalid r2 L cache HI2 HC2 Hnz2) as Hcv2.
-  assert (Hvars : ∀ v, is_Some (vars r1 !! v) ↔ is_Some (vars r0 !! v) ∨ v ∈ (jf_levels jf).*1).
-  { intros v. split.
-    - intros Hv. by apply (declare_dom _ r0 _ r1 HI0 Ed v Hv).
-    - intros [[l Hl]|Hin]; [exists l; by apply (lookup_weaken _ _ _ _ Hl Hsub1)|by apply Hin1]. }
-  assert (Hstep : ∀ r', Inv r' → grows r2 r' → DStep (heldn L) r1 r').
-  { intros r' HI' G'. apply (DStep_trans _ r1 r2 r'); [done|]. by apply DStep_grows. }
-  (* releasing after a failure *)
-  assert (Hfail : ∀ e,
-    ∃ r', (forM (map_to_list cache) (fun '(_, u) => lift (decref u)) ;;; raise e)
-            (ASt r2 H n) = (Err e : res rootsH, ASt r' H n) ∧
-      Inv r' ∧ grows r2 r' ∧ Counts r' L).
-  { intros e. destruct (release_fail (map_to_list cache) r2 H n L HI2 (cvalid_list r2 cache Hcv2) HC2)
-      as (r'&E&HI'&G'&HC'). exists r'. step E. by split. }
-  assert (Hhead : ∀ (k : gmap positive Z * option err → MA rootsH),
-    a_load_json jf false (ASt r0 H n)
-    = (let '(cache, failed) := (cache, failed) in
-       nodes <- match failed with
-                | Some e => ret (Err e)
-                | None => catch (root_nodes cache (jf_roots jf))
-                end ;;
-       match nodes with
-       | Err e => forM (map_to_list cache) (fun '(_, u) => lift (decref u)) ;;; raise e
-       | Ok nodes =>
-           hroots <- wrap_roots nodes ;;
-           forM (map_to_list cache) (fun '(_, u) =>
-             tmp_new u ;;;
-             r <- lift (ref u) ;;
-             assert (bool_decide (2 <= r)) ;;;
-             (if false then assert (bool_decide (3 <= r)) else ret tt) ;;;
-             lift (decref u) ;;;
-             tmp_del u) ;;;
-           (if false then lift (configure (Some true)) ;;; ret tt else ret tt) ;;;
-           ret hroots
-       end) (ASt r2 H n)).
-  { intros _. unfold a_load_json. cbn [bind ret]. step (lift_run _ _ H n _ _ Ed).
-    cbn [bind ret]. fold vat. by step E2. }
-  rewrite (Hhead (fun _ => ret (HList []))). clear Hhead. cbv beta iota.
-  destruct failed as [e|].
-  { destruct (Hfail e) as (r'&E&HI'&G'&HC').
-    exists (Err e), r1, r', H, n. split; [done|]. split.
-    { rewrite (bind_ok _ _ _ (Err e) (ASt r2 H n)) by done. exact E. }
-    split_and!; try done; [by apply HC1|by apply Hstep]. }
-  destruct (root_nodes_pure cache (jf_roots jf) (ASt r2 H n) HI2) as (rn&Ern&Hrn).
-  assert (Ecatch : catch (root_nodes cache (jf_roots jf)) (ASt r2 H n) = (Ok rn, ASt r2 H n)).
-  { unfold catch. by rewrite Ern. }
-  step Ecatch. destruct rn as [nodes|e]; cycle 1.
-  { destruct (Hfail e) as (r'&E&HI'&G'&HC').
-    exists (Err e), r1, r', H, n. split; [done|]. split; [exact E|].
-    split_and!; try done; [by apply HC1|by apply Hstep]. }
-  destruct (Hrn nodes eq_refl) as [Hnone Hvn]. cbn [mgr] in Hvn.
-  destruct (wrap_roots_ok nodes r2 H n _ Hnone HI2 HC2 Hvn) as (r3&E3&HI3&G3&HC3).
-  set (us := roots_values nodes) in *.
-  destruct (release_gen false (map_to_list cache) r3 (hins H n us) (n + length us)
-              (ledger_add L us) HI3) as (r'&E4&HI4&G4&_&HC4); [| |done|].
-  { apply cvalid_list. by apply (cvalid_grows r2 r3). }
-  { eapply Counts_ext; [|exact HC3]. intros m. unfold ledger_add, cvals. lia. }
-  assert (G' : grows r2 r') by (by etrans).
-  exists (Ok (hroots_of nodes n)), r1, r', (hins H n us), (n + length us).
-  split; [done|]. split.
-  { step E3. step E4. by cbn [bind ret]. }
-  split_and!; try done; [by apply HC1|by apply Hstep|].
-  exists us. split; [done|]. split; [done|]. split; [|done].
-  eapply Forall_impl; [exact Hvn|]. intros x Hx. by apply (grows_valid r2 r' x).
-Qed.
-
-(** the statement with [DynSt] and [DStep] spelled out *)
-Theorem json_load_any_file_dyn_ledger jf r0 H n L :
-  Inv r0 → rctx r0 = false → tape r0 = [] → max_nodes r0 = None → Counts r0 L →
-  ∃ res r1 r' H' n',
-    declare (jf_levels jf).*1 r0 = (Ok tt, r1) ∧
-    a_load_json jf false (ASt r0 H n) = (res, ASt r' H' n') ∧
-    Inv r1 ∧ frame r0 r1 ∧ vars r0 ⊆ vars r1 ∧ Counts r1 L ∧
-    (∀ v, is_Some (vars r1 !! v) ↔ is_Some (vars r0 !! v) ∨ v ∈ (jf_levels jf).*1) ∧
-    (∀ u, valid r0 u → valid r1 u ∧ ∀ ρ, denv r1 u ρ = denv r0 u ρ) ∧
-    Inv r' ∧ rctx r' = false ∧ tape r' = [] ∧ max_nodes r' = None ∧
-    keeps (heldn L) r1 r' ∧
-    (last_len r0 = None → last_len r' = None) ∧
-    (is_Some (last_len r0) → is_Some (last_len r')) ∧
-    match res with
-    | Err e => H' = H ∧ n' = n ∧ Counts r' L
-    | Ok hroots => ∃ us, H' = hins H n us ∧ n' = n + length us ∧
-                         Forall (valid r') us ∧ Counts r' (ledger_add L us)
-    end.
-Proof.
-  intros HI0 Hc Ht Hmx HC.
-  destruct (json_load_dyn_total jf r0 H n L (Build_DynSt r0 HI0 Hc Ht Hmx) HC)
-    as (res&r1&r'&H'&n'&Ed&E&HD1&Hf1&Hsub&HC1&Hdom&Hold&([HI' Hc' Ht' Hmx']&Hk&[Hm1 Hm2])&Hres).
-  pose proof Hf1 as (El&_).
-  exists res, r1, r', H', n'. split_and!; try done; [apply HD1|..]; rewrite <- El; done.
-Qed.
-
-Lemma AInvDT_same r0 H n r' :
-  AInvDT (ASt r0 H n) → DynSt r' →
-  (∀ h u, H !! h = Some u → valid r' u) → Counts r' (hl H) →
-  AInvDT (ASt r' H n).
-Proof.
-  intros [(_&_&_&_&Hb) _] HD' Hold HC'. cbn [mgr handles next_hid] in *.
-  split; [|apply HD']. split; [apply HD'|]. split; [apply HD'|]. by split.
-Qed.
-
-Theorem json_load_any_file_dynamic jf b :
-  AInvDT b → max_nodes (mgr b) = None →
-  ∃ res b',
-    a_load_json jf false b = (res, b') ∧
-    AInvDT b' ∧ max_nodes (mgr b') = None ∧ AKeepAll b b' ∧
-    (∀ v, is_Some (vars (mgr b') !! v) ↔
-          is_Some (vars (mgr b) !! v) ∨ v ∈ (jf_levels jf).*1) ∧
-    (last_len (mgr b) = None → last_len (mgr b') = None) ∧
-    (is_Some (last_len (mgr b)) → is_Some (last_len (mgr b'))) ∧
-    match res with
-    | Err e => handles b' = handles b ∧ next_hid b' = next_hid b ∧
-               Counts (mgr b') (hledger b)
-    | Ok hroots => ∃ us, handles b' = hins (handles b) (next_hid b) us ∧
-                         next_hid b' = next_hid b + length us ∧
-                         Forall (valid (mgr b')) us ∧
-                         Counts (mgr b') (ledger_add (hledger b) us)
-    end.
-Proof.
-  intros HA Hmx. destruct b as [r0 H n]. pose proof HA as [(HIb&Hrc&HC&Hv&Hb) Ht].
-  cbn [mgr handles next_hid] in *. unfold hledger in *. cbn [handles] in *.
-  assert (HD0 : DynSt r0) by (by split).
-  destruct (json_load_dyn_total jf r0 H n (hl H) HD0 HC)
-    as (res&r1&r'&H'&n'&Ed&E&HD1&Hf1&Hsub&HC1&Hdom&Hold&HS&Hres).
-  pose proof HS as (HD'&[Edom _]&[Hm1 Hm2]). pose proof Hf1 as (El&_).
-  assert (Hold' : ∀ h u, H !! h = Some u →
-            valid r' u ∧ ∀ ρ, denv r' u ρ = denv r0 u ρ).
-  { intros h u Hu. destruct (Hold u (Hv h u Hu)) as [Hu1 HD1u].
-    assert (Hk : heldn (hl H) (absn u)) by (right; by apply (hl_pos H h)).
-    split; [by apply (DStep_valid _ r1 r' u HS Hk)|].
-    intros ρ. by rewrite (DStep_denv _ r1 r' u ρ HS Hk Hu1). }
-  exists res, (ASt r' H' n'). cbn [mgr handles next_hid].
-  split; [done|].
-  assert (Hcommon : max_nodes r' = None ∧
-    (∀ v, is_Some (vars r' !! v) ↔ is_Some (vars r0 !! v) ∨ v ∈ (jf_levels jf).*1) ∧
-    (last_len r0 = None → last_len r' = None) ∧
-    (is_Some (last_len r0) → is_Some (last_len r'))).
-  { split; [apply HD'|]. split.
-    - intros v. rewrite <- Hdom. rewrite <- !elem_of_dom. by rewrite Edom.
-    - split; [intros Hn; apply Hm1; by rewrite El|intros Hn; apply Hm2; by rewrite El]. }
-  destruct Hcommon as (Hc1&Hc2&Hc3&Hc4).
-  destruct res as [hroots|e].
-  - destruct Hres as (us&->&->&Hvus&HC').
-    split; [apply (AInvDT_hins r0); [done|done| |done|done]; intros h u Hu; by apply (Hold' h)|].
-    split; [done|]. split.
-    { intros h u Hu. cbn [mgr handles] in *. split.
-      - rewrite hins_old; [done|]. left. by apply (Hb h u).
-      - by apply (Hold' h). }
-    split; [done|]. split; [done|]. split; [done|]. by exists us.
-  - destruct Hres as (->&->&HC').
-    split; [apply (AInvDT_same r0); [done|done| |done]; intros h u Hu; by apply (Hold' h)|].
-    split; [done|]. split.
-    { intros h u Hu. cbn [mgr handles] in *. split; [done|]. by apply (Hold' h). }
-    by split_and!.
-Qed.
 
 (** worlds written with [fold_left] are [arun]s *)
 Lemma fold_arun w m ops : fold_left (fun w o => fst (astep w m o)) ops w = arun w m ops.
